@@ -359,16 +359,25 @@ def replay(oid, kwargs, model, data):
         if "/restore" in oid or "draws_independent" in oid:
             return bool(res.get("state_changed_1") or res.get("state_changed_2")), res
         if "no_reseed" in oid or "unseeded" in oid:
-            a = []
+            out = {}
             for prior in (1, 2):
                 np.random.seed(1000 + prior)
+                if prior == 2:
+                    np.random.normal()  # cached Gaussian present
                 d = _detector(kind)
+                before = np.random.get_state()
                 try:
                     f(d, **dict(kw))
                 except Exception:  # noqa: BLE001
                     pass
-                a.append(np.random.get_state()[1].copy())
-            return bool(np.array_equal(a[0], a[1])), {"same_global_state_after_run_whatever_the_prior_state": bool(np.array_equal(a[0], a[1]))}
+                after = np.random.get_state()
+                bits_same = np.array_equal(before[1], after[1]) and before[2] == after[2]
+                gauss_same = tuple(before[3:]) == tuple(after[3:])
+                reseeded = any(np.array_equal(after[1], np.random.RandomState(c).get_state()[1]) for c in (0, 1, 42, 1234))
+                # an unseeded model may consume the stream (bits advance); it may not rewind / re-seed it, nor touch only the Gaussian cache
+                out[f"prior{prior}"] = {"bits_same": bool(bits_same), "gauss_same": bool(gauss_same), "reseeded": bool(reseeded)}
+            bad = any(v["reseeded"] or (v["bits_same"] and not v["gauss_same"]) for v in out.values())
+            return bad, out
         return False, res
     if data["fn"] in ("ctx", "plumb") and not (data["fn"] == "plumb" and kwargs["mode"] == "calibration"):
         from pyxel.util import set_random_seed
